@@ -206,7 +206,11 @@ impl Report {
             for m in &g.machinery {
                 println!("MACHINERY-ERROR: {}", m);
             }
-            return 2;
+            // a violation found by a deterministic, individually replayable
+            // part of the run stands on its own; otherwise the run is broken
+            if real.is_empty() {
+                return 2;
+            }
         }
         if real.is_empty() {
             println!(
